@@ -253,6 +253,11 @@ func (e *Engine) driverA(t *core.Tape, cfg *core.Config, st *core.Stats, enumSch
 		}
 		who[i] = t.Choose(n)
 		na := t.Choose(4)
+		if strings.HasPrefix(bodies[who[i]], "BV") {
+			// vararg bodies are given long argument lists (counts around the byte and operand-size boundaries)
+			na = []int{1, 2, 3, 50, 127, 128, 254, 255, 256, 257, 300, 511, 512, 513}[t.Choose(14)]
+			st.Probe("resume_with_many_values")
+		}
 		for j := 0; j < na; j++ {
 			sched[i] = append(sched[i], float64(10*(i+1)+j))
 		}
@@ -441,6 +446,9 @@ func DebugA(draws []uint32, aux []int64) {
 	for i := range sched {
 		who[i] = t.Choose(n)
 		na := t.Choose(4)
+		if strings.HasPrefix(bodies[who[i]], "BV") {
+			na = []int{1, 2, 3, 50, 127, 128, 254, 255, 256, 257, 300, 511, 512, 513}[t.Choose(14)]
+		}
 		for j := 0; j < na; j++ {
 			sched[i] = append(sched[i], float64(10*(i+1)+j))
 		}
